@@ -353,13 +353,11 @@ func runLongLCS(c *core.Ctx) {
 		}
 	}
 	for k := 0; k < c.Pick(3, 8); k++ {
-		n := []int{9000, 16384, 20000, 30000, 32000, 32700}[c.Rng.Intn(6)]
+		// the alignment (not the sum of the lengths) must stay below 2^16 columns
+		n := []int{9000, 16384, 20000, 32767, 32768, 33000, 40000, 50000, 65000}[c.Rng.Intn(9)]
 		a := gen.DNA(c.Rng, n)
 		d := c.Rng.Intn(7)
 		b := gen.Mutate(c.Rng, a, d)
-		if len(a)+len(b) >= 65534 {
-			b = b[:65533-len(a)]
-		}
 		band := 2*d + 8 + max(len(a)-len(b), len(b)-len(a))
 		lcs, ali := ref.LCSBanded(a, b, band, ref.Compatible)
 		diff := ali - lcs
